@@ -49,6 +49,7 @@ func c09Gen(c *vfCtx, emit func(c09Case)) {
 									sc := vfCleanScenario{DirSpell: []string{"", "", "slash", "dot"}[(mask+fmask+sa)%4], DirName: []string{"", "w.snap.d", "pkg[1]", ".snapshots"}[variant], Count: cnt, CI: ci, Sort: srt, Env: env, SFiles: map[string]string{}, Other: map[string]string{"notes.txt": "n", "snapnotes": "no dot",
 										// Go sources next to the snapshot directory, named after the stale files, holding no test function: without -run they protect nothing
 										"../stale.go": "package x\n\ntype fixture struct{}\n\nfunc (fixture) TestLike() {}\nfunc helper() {}\n", "../F.go": "package x\n\nvar _ = 1\n"}, Dirs: []string{"d.snap"}}
+									sc.CRLF = (mask+fmask+cnt+sa)%5 == 4
 									var es []vfEntry
 									staleEntryChoices := staleEntryChoices
 									if (mask+fmask+cnt+sa)%3 == 2 {
